@@ -328,6 +328,7 @@ def plain_status(run, rng, cfg):
             conn.allowed_proto_versions = set(cfg['A'])
             run.count('status_queries.after_compressed_session')
         decoy = Decoy()
+        log_mark = len(rec.log.events)
         with contextlib.redirect_stdout(out):
             try:
                 conn.status(**args)
@@ -381,7 +382,7 @@ def plain_status(run, rng, cfg):
         if hp_mode == 'disabled' and (rec.pings or 'Ping:' in printed):
             bad('plain-status/ping-disabled', 'latency reported although '
                 'disabled')
-        order = [k for _s, _r, k, _p in rec.log.events
+        order = [k for _s, _r, k, _p in rec.log.events[log_mark:]
                  if k in ('cb.status', 'cb.ping', 'cb.exit')]
         if order != sorted(order, key=('cb.status', 'cb.ping',
                                        'cb.exit').index):
